@@ -526,9 +526,12 @@ class Background2D:
         ngood : 2D `~numpy.ndarray`
             The number of unmasked pixels in each box.
         """
-        # if needed, copy the data to a float32 array to insert NaNs
+        # if needed, copy the data to a float array to insert NaNs;
+        # float32 holds 8- and 16-bit integers exactly, wider integers
+        # need float64
         if self._data.dtype.kind != 'f':
-            self._data = self._data.astype(np.float32)
+            self._data = self._data.astype(
+                np.result_type(self._data.dtype, np.float32))
 
         # automatically mask non-finite values that aren't already
         # masked and combine all masks
